@@ -326,6 +326,32 @@ fn add_module_named_like_item(t: &mut Tape, prog: &mut Prog) {
     });
 }
 
+/// Several backend blocks of one module whose names differ only in case (`rust`, `Rust`, `RUST`): only the
+/// blocks called `rust` belong to the Rust output, and whatever is done with the others is done the same way in every build.
+fn add_backend_spellings(t: &mut Tape, prog: &mut Prog) {
+    if prog.mods.is_empty() {
+        return;
+    }
+    let mi = t.below(prog.mods.len() as u64) as usize;
+    let n = 2 + t.below(3);
+    let kind = t.below(3); // all prologues, all epilogues, mixed
+    for i in 0..n {
+        let name = t.pick(&["rust", "Rust", "RUST", "rUst", "rust_"]).to_string();
+        let text = format!("pub const PV_SPELLING_{}_{}: u32 = {};", mi, i, i);
+        let pro = match kind {
+            0 => true,
+            1 => false,
+            _ => t.chance(1, 2),
+        };
+        prog.mods[mi].backends.push(BackendBlk {
+            name,
+            form: if pro { 1 } else { 2 },
+            prologue: if pro { Some(text.clone()) } else { None },
+            epilogue: if pro { None } else { Some(text) },
+        });
+    }
+}
+
 fn hazard_cfg(t: &mut Tape) -> GenCfg {
     let w = if t.chance(1, 2) { 8 } else { 4 };
     let mut cfg = GenCfg::rich(w);
@@ -344,7 +370,7 @@ impl Prop for Schedules {
         "C09/schedules".into()
     }
     fn rule(&self) -> String {
-        format!("multi-module programs from the rich generator, one in five from the C11 generator (one short name defined in several modules, competing by-name and whole-module imports, an extern value of that name) (by-value chains, bases with vftables, types pointing to generated <T>Vftable items through by-name and whole-module imports, several modules that import one type by name and carry an impl block for it, a module nested below another and named like one of its items, cross-module imports, enum/extern-typed fields, impl/vftable signatures over user types). Every program is built: 4x with hash order, under Sorted/Reverse/6 set-dependent seeded schedules, under every priority permutation of its user items when it has <= {} of them ({} sampled permutations otherwise), and under every permutation of add_module order (<= 4 modules; 24 sampled beyond). Oracle: all runs agree on Ok/Err and on the bytes of every output file. Non-trivial: >= 3 user items and >= 2 resolution rounds under some schedule. References to generated <T>Vftable names from signatures are not generated (known finding F06, demonstrated by its own replay)", self.exhaustive_upto, self.sampled)
+        format!("multi-module programs from the rich generator, one in five from the C11 generator (one short name defined in several modules, competing by-name and whole-module imports, an extern value of that name) (by-value chains, bases with vftables, types pointing to generated <T>Vftable items through by-name and whole-module imports, several modules that import one type by name and carry an impl block for it, a module nested below another and named like one of its items, backend blocks of one module named rust/Rust/RUST/… side by side, cross-module imports, enum/extern-typed fields, impl/vftable signatures over user types). Every program is built: 4x with hash order, under Sorted/Reverse/6 set-dependent seeded schedules, under every priority permutation of its user items when it has <= {} of them ({} sampled permutations otherwise), and under every permutation of add_module order (<= 4 modules; 24 sampled beyond). Oracle: all runs agree on Ok/Err and on the bytes of every output file. Non-trivial: >= 3 user items and >= 2 resolution rounds under some schedule. References to generated <T>Vftable names from signatures are not generated (known finding F06, demonstrated by its own replay)", self.exhaustive_upto, self.sampled)
     }
     fn gen(&self, t: &mut Tape) -> Case {
         // one case in five: a small module set in which one short name is defined in several
@@ -368,6 +394,9 @@ impl Prop for Schedules {
         }
         if t.chance(1, 6) {
             add_module_named_like_item(t, &mut prog);
+        }
+        if t.chance(1, 5) {
+            add_backend_spellings(t, &mut prog);
         }
         Case { prog, w, seed: t.u64() }
     }
@@ -434,6 +463,9 @@ impl Prop for FreshProcess {
         }
         if t.chance(1, 6) {
             add_module_named_like_item(t, &mut prog);
+        }
+        if t.chance(1, 5) {
+            add_backend_spellings(t, &mut prog);
         }
         Case { prog, w, seed: t.u64() }
     }
